@@ -27,8 +27,9 @@ pub struct Norm<'a> {
     pub return_no: usize,
     pub forpat_no: usize,
     pub tmp_no: usize,
+    pub split_no: usize,
+    pub splitk_no: BTreeMap<String, usize>,
     pub call_no: BTreeMap<String, usize>,
-    pub split_no: BTreeMap<String, usize>,
     pub let_no: BTreeMap<String, usize>,
     pub hoisted: Vec<Stmt>,
     pub log: BTreeMap<String, usize>,
@@ -47,8 +48,8 @@ impl<'a> Norm<'a> {
     pub fn new(spec: &'a FnSpec, unit: &'a Unit, canary: bool, fname: &str) -> Self {
         Norm {
             spec, unit, canary, fname: fname.to_string(),
-            loop_no: 0, closure_no: 0, if_no: 0, match_no: 0, assert_no: 0, return_no: 0, forpat_no: 0, tmp_no: 0,
-            call_no: Default::default(), split_no: Default::default(), let_no: Default::default(), hoisted: vec![], log: Default::default(),
+            loop_no: 0, closure_no: 0, if_no: 0, match_no: 0, assert_no: 0, return_no: 0, forpat_no: 0, tmp_no: 0, split_no: 0, splitk_no: Default::default(),
+            call_no: Default::default(), let_no: Default::default(), hoisted: vec![], log: Default::default(),
             raws: vec![], used_anchors: Default::default(), avail_anchors: Default::default(), errors: vec![],
             closure_depth: 0, canaries: vec![],
         }
@@ -241,6 +242,12 @@ impl<'a> Norm<'a> {
 
     /// R-SLICEPAT and R-LETCHAIN on an `if`.
     fn rewrite_if(&mut self, i: &mut ExprIf) {
+        // R-REFPAT on `if let`: derefs go to the start of the then-branch
+        if let Expr::Let(l) = &mut *i.cond {
+            let mut derefs: Vec<Stmt> = vec![];
+            self.strip_ref_pats(&mut l.pat, &mut derefs);
+            for (k, d) in derefs.into_iter().enumerate() { i.then_branch.stmts.insert(k, d); }
+        }
         // slice pattern: if let [a, ..] = E
         if let Expr::Let(l) = &*i.cond {
             if let Some((n, binds)) = Self::slice_pat_bindings(&l.pat) {
@@ -301,34 +308,124 @@ impl<'a> Norm<'a> {
 }
 
 impl<'a> Norm<'a> {
-    /// R-FORPAT: reference sub-patterns in a `for` pattern -> fresh binder + `let INNER = *binder;` at the body start
-    fn forpat(&mut self, pat: &mut Pat, body: &mut Block) {
-        let mut lets: Vec<Stmt> = vec![];
-        let mut no = self.forpat_no;
-        fn walk(p: &mut Pat, no: &mut usize, lets: &mut Vec<Stmt>) {
-            match p {
-                Pat::Reference(r) => {
-                    *no += 1;
-                    let id = Ident::new(&format!("__vx_x{}", *no), Span::call_site());
-                    let inner = (*r.pat).clone();
-                    lets.push(parse_quote!(let #inner = *#id;));
-                    *p = parse_quote!(#id);
+    /// R-REFPAT: replace every reference pattern `&..&x` inside `p` by a fresh binder and emit `let x = *..*fresh;`
+    fn strip_ref_pats(&mut self, p: &mut Pat, out: &mut Vec<Stmt>) {
+        match p {
+            Pat::Reference(_) => {
+                let mut depth = 0usize;
+                let mut cur: Pat = p.clone();
+                while let Pat::Reference(r) = cur { depth += 1; cur = (*r.pat).clone(); }
+                match &cur {
+                    Pat::Ident(pi) if pi.subpat.is_none() && pi.by_ref.is_none() => {
+                        self.tmp_no += 1;
+                        let fresh = Ident::new(&format!("__vx_r{}", self.tmp_no), Span::call_site());
+                        let mut ex: Expr = parse_quote!(#fresh);
+                        for _ in 0..depth { ex = parse_quote!(*#ex); }
+                        out.push(parse_quote!(let #cur = #ex;));
+                        *p = parse_quote!(#fresh);
+                        self.bump("R-REFPAT");
+                    }
+                    _ => self.errors.push(format!("reference pattern over a non-identifier in {}", self.fname)),
                 }
-                Pat::Tuple(t) => { for el in t.elems.iter_mut() { walk(el, no, lets); } }
-                Pat::TupleStruct(t) => { for el in t.elems.iter_mut() { walk(el, no, lets); } }
-                Pat::Paren(pp) => walk(&mut pp.pat, no, lets),
-                _ => {}
             }
+            Pat::Tuple(t) => { for e in t.elems.iter_mut() { self.strip_ref_pats(e, out); } }
+            Pat::TupleStruct(t) => { for e in t.elems.iter_mut() { self.strip_ref_pats(e, out); } }
+            Pat::Paren(t) => self.strip_ref_pats(&mut t.pat, out),
+            Pat::Type(t) => self.strip_ref_pats(&mut t.pat, out),
+            Pat::Struct(st) => { for f in st.fields.iter_mut() { self.strip_ref_pats(&mut f.pat, out); } }
+            _ => {}
         }
-        walk(pat, &mut no, &mut lets);
-        if !lets.is_empty() {
-            self.forpat_no = no;
-            for (k, s) in lets.into_iter().enumerate() { body.stmts.insert(k, s); self.bump("R-FORPAT"); }
+    }
+
+    fn letsplit_expr(&mut self, e: &mut Expr, pre: &mut Vec<Stmt>) {
+        match e {
+            Expr::Try(t) => self.letsplit_expr(&mut t.expr, pre),
+            Expr::Await(t) => self.letsplit_expr(&mut t.base, pre),
+            Expr::Paren(t) => self.letsplit_expr(&mut t.expr, pre),
+            Expr::MethodCall(mc) => {
+                if !self.spec.letsplit.contains(&mc.method.to_string()) { return; }
+                let simple = |x: &Expr| matches!(x, Expr::Path(_) | Expr::Field(_) | Expr::Lit(_));
+                if !simple(&mc.receiver) {
+                    self.letsplit_expr(&mut mc.receiver, pre);
+                    self.split_no += 1;
+                    let t = Ident::new(&format!("__vx_t{}", self.split_no), Span::call_site());
+                    let r = &mc.receiver;
+                    pre.push(parse_quote!(let mut #t = #r;));
+                    mc.receiver = Box::new(parse_quote!(#t));
+                    self.bump("R-LETSPLIT");
+                }
+                // `&mut CALL` arguments (evaluated after the now-simple receiver): bound in order
+                for a in mc.args.iter_mut() {
+                    if let Expr::Reference(rf) = a {
+                        if rf.mutability.is_some() && matches!(&*rf.expr, Expr::MethodCall(_) | Expr::Call(_)) {
+                            self.split_no += 1;
+                            let t = Ident::new(&format!("__vx_t{}", self.split_no), Span::call_site());
+                            let inner = &rf.expr;
+                            pre.push(parse_quote!(let mut #t = #inner;));
+                            rf.expr = Box::new(parse_quote!(#t));
+                            self.bump("R-LETSPLIT");
+                        }
+                    }
+                }
+            }
+            _ => {}
+        }
+    }
+
+    /// root `R.peek_mut()` of a method chain: rename to `peek`, return R
+    fn peek_mut_root(e: &mut Expr) -> Option<Expr> {
+        if let Expr::MethodCall(mc) = e {
+            if mc.method == "peek_mut" && mc.args.is_empty() {
+                mc.method = Ident::new("peek", mc.method.span());
+                return Some((*mc.receiver).clone());
+            }
+            return Self::peek_mut_root(&mut mc.receiver);
+        }
+        None
+    }
+    fn single_binder(p: &Pat) -> Option<Ident> {
+        match p {
+            Pat::Ident(pi) => Some(pi.ident.clone()),
+            Pat::TupleStruct(t) if t.elems.len() == 1 => Self::single_binder(&t.elems[0]),
+            Pat::Paren(t) => Self::single_binder(&t.pat),
+            _ => None,
         }
     }
 }
 
+/// R-MAP(peek_mut): `PeekMut::pop(X)` -> `R.vx_peekmut_pop()` for the binder X of the enclosing `while let .. = R.peek_mut()..`
+struct PeekMutPop { binder: Ident, recv: Expr, replaced: usize, other_uses: usize }
+impl VisitMut for PeekMutPop {
+    fn visit_expr_mut(&mut self, e: &mut Expr) {
+        if let Expr::Call(c) = e {
+            if squash(&ts(&c.func)).ends_with("PeekMut::pop") && c.args.len() == 1 {
+                if let Expr::Path(p) = &c.args[0] {
+                    if p.path.is_ident(&self.binder) {
+                        let r = &self.recv;
+                        *e = parse_quote!(#r.vx_peekmut_pop());
+                        self.replaced += 1;
+                        return;
+                    }
+                }
+            }
+        }
+        if let Expr::Path(p) = e { if p.path.is_ident(&self.binder) { self.other_uses += 1; } }
+        visit_mut::visit_expr_mut(self, e);
+    }
+}
+
 use syn::parse::Parser;
+
+pub fn strip_jj_lib_prefix(p: &mut Path, log: &mut BTreeMap<String, usize>) -> bool {
+    if p.leading_colon.is_some() && p.segments.len() > 2 && p.segments[0].ident == "jj_lib" && p.segments[1].ident == "content_hash" {
+        let rest: Punctuated<PathSegment, Token![::]> = p.segments.iter().skip(2).cloned().collect();
+        p.segments = rest;
+        p.leading_colon = None;
+        *log.entry("R-MACRO-EXPAND(path)".to_string()).or_default() += 1;
+        return true;
+    }
+    false
+}
 
 pub struct Rename<'a> {
     pub from: &'a str,
@@ -397,7 +494,19 @@ impl<'a> VisitMut for Norm<'a> {
 
     fn visit_attribute_mut(&mut self, _a: &mut Attribute) {}
 
+    /// R-MACRO-EXPAND (paths): the derive macro names jj_lib items by absolute path `::jj_lib::content_hash::X`; in the
+    /// single-file crate they are just `X`.
+    fn visit_path_mut(&mut self, p: &mut Path) {
+        strip_jj_lib_prefix(p, &mut self.log);
+        visit_mut::visit_path_mut(self, p);
+    }
+
     fn visit_expr_path_mut(&mut self, p: &mut ExprPath) {
+        if let Some(q) = &mut p.qself {
+            // `<T as ::jj_lib::content_hash::Trait>::f`: the trait part shrinks by the stripped segments
+            let before = p.path.segments.len();
+            if strip_jj_lib_prefix(&mut p.path, &mut self.log) { q.position -= before - p.path.segments.len(); }
+        }
         if p.path.segments.len() > 1 {
             if let Some(seg) = p.path.segments.first_mut() {
                 if let Some((_, to)) = self.unit.path_map.iter().find(|(f, _)| seg.ident == f.as_str()) {
@@ -409,21 +518,79 @@ impl<'a> VisitMut for Norm<'a> {
         visit_mut::visit_expr_path_mut(self, p);
     }
 
+    fn visit_expr_struct_mut(&mut self, s: &mut ExprStruct) {
+        // R-TYPE on the path of a struct literal: `a::b::T { .. }` with `@type-map a::b::T => T`
+        if s.qself.is_none() {
+            let key = squash(&ts(&s.path));
+            if let Some((_, to)) = self.unit.type_map.iter().find(|(f, _)| f == &key) {
+                if let Ok(np) = parse_str::<Path>(to) {
+                    s.path = np;
+                    self.bump("R-TYPE");
+                }
+            }
+        }
+        visit_mut::visit_expr_struct_mut(self, s);
+    }
+
     fn visit_block_mut(&mut self, b: &mut Block) {
-        let old = std::mem::take(&mut b.stmts);
+        let mut old = std::mem::take(&mut b.stmts);
+        // R-LETSPLIT (@letsplit m1 m2): in a `let` initialiser, the receiver chain of `.m(..)` is bound by `let mut __vx_tK = RECV;`
+        if !self.spec.letsplit.is_empty() {
+            let mut out: Vec<Stmt> = vec![];
+            for mut st in old {
+                if let Stmt::Local(l) = &mut st {
+                    if let Some(init) = &mut l.init {
+                        let mut pre: Vec<Stmt> = vec![];
+                        self.letsplit_expr(&mut init.expr, &mut pre);
+                        out.extend(pre);
+                    }
+                } else if let Stmt::Expr(Expr::Assign(a), _) = &mut st {
+                    if matches!(&*a.left, Expr::Path(_) | Expr::Field(_)) {
+                        let mut pre: Vec<Stmt> = vec![];
+                        self.letsplit_expr(&mut a.right, &mut pre);
+                        out.extend(pre);
+                    }
+                }
+                out.push(st);
+            }
+            old = out;
+        }
         for mut s in old {
             // pre-anchors
             let mut before: Vec<Stmt> = vec![];
             let mut after: Vec<Stmt> = vec![];
             // statement-level macros
-            let mut macro_hoisted: Vec<Stmt> = vec![];
             if let Stmt::Macro(sm) = &s {
-                // closures / split receivers inside the macro's arguments are hoisted to just before this statement
-                let saved = std::mem::take(&mut self.hoisted);
-                if let Some(e) = self.rewrite_macro(&sm.mac.clone()) {
+                let saved0 = std::mem::take(&mut self.hoisted);
+                let rewritten = self.rewrite_macro(&sm.mac.clone());
+                let mine0 = std::mem::replace(&mut self.hoisted, saved0);
+                b.stmts.extend(mine0);
+                if let Some(e) = rewritten {
                     s = Stmt::Expr(e, Some(Default::default()));
                 }
-                macro_hoisted = std::mem::replace(&mut self.hoisted, saved);
+            }
+            // R-FORLOOP (@forloop K): Rust's own desugaring of `for`, with the VxIter model as the iterator:
+            // `'l: for P in E { B }` -> `let mut __vx_forK = E.into_iter(); 'l: loop { let Some(P) = __vx_forK.next() else { break; }; B }`
+            if let Stmt::Expr(Expr::ForLoop(f), semi) = &s {
+                let n = self.loop_no + 1;
+                if self.spec.forloop.contains(&n) {
+                    let itv = Ident::new(&format!("__vx_for{}", n), Span::call_site());
+                    let (pat, ex, body, label) = (&f.pat, &f.expr, &f.body.stmts, &f.label);
+                    let mut first: Stmt = match &**ex {
+                        Expr::Path(_) | Expr::MethodCall(_) | Expr::Call(_) | Expr::Field(_) => parse_quote!(let mut #itv = #ex.into_iter();),
+                        _ => parse_quote!(let mut #itv = (#ex).into_iter();),
+                    };
+                    let saved0 = std::mem::take(&mut self.hoisted);
+                    self.visit_stmt_mut(&mut first);
+                    let mine0 = std::mem::replace(&mut self.hoisted, saved0);
+                    b.stmts.extend(mine0);
+                    b.stmts.push(first);
+                    let head_id = Ident::new(&format!("__vx_anchor_loop{}_head", n), Span::call_site());
+                    let bound_id = Ident::new(&format!("__vx_anchor_loop{}_bound", n), Span::call_site());
+                    let lp: Expr = parse_quote!(#label loop { #head_id!(); let Some(#pat) = #itv.next() else { break; }; #bound_id!(); #(#body)* });
+                    s = Stmt::Expr(lp, *semi);
+                    self.bump("R-FORLOOP");
+                }
             }
             if let Stmt::Local(l) = &s {
                 if let (Pat::Slice(ps), Some(init)) = (&l.pat, &l.init) {
@@ -474,7 +641,7 @@ impl<'a> VisitMut for Norm<'a> {
                     after.extend(self.anchor(&format!("after-let {}#{}", name, k)));
                     if k == 1 { after.extend(self.anchor(&format!("after-let {}", name))); }
                     // R-LETTYPE
-                    if let (Some(ty), Pat::Ident(_)) = (self.spec.lettype.get(&name), &l.pat) {
+                    if let (Some(ty), Pat::Ident(_)) = (self.spec.lettype.get(&name).cloned().as_ref(), &l.pat) {
                         if let Ok(t) = parse_str::<Type>(ty) {
                             let p = l.pat.clone();
                             l.pat = Pat::Type(PatType { attrs: vec![], pat: Box::new(p), colon_token: Default::default(), ty: Box::new(t) });
@@ -482,6 +649,11 @@ impl<'a> VisitMut for Norm<'a> {
                         }
                     }
                 }
+            }
+            // R-REFPAT on `let` patterns (incl. let-else): `Some(&x)` -> `Some(__vx_rN)` + `let x = *__vx_rN;`
+            let mut derefs: Vec<Stmt> = vec![];
+            if let Stmt::Local(l) = &mut s {
+                self.strip_ref_pats(&mut l.pat, &mut derefs);
             }
             let saved = std::mem::take(&mut self.hoisted);
             self.visit_stmt_mut(&mut s);
@@ -506,10 +678,10 @@ impl<'a> VisitMut for Norm<'a> {
                 before.extend(self.anchor(&format!("loop{}.before", next_loop)));
                 after.extend(self.anchor(&format!("loop{}.after", next_loop)));
             }
-            b.stmts.extend(macro_hoisted);
             b.stmts.extend(mine);
             b.stmts.extend(before);
             b.stmts.push(s);
+            b.stmts.extend(derefs);
             b.stmts.extend(after);
         }
     }
@@ -517,7 +689,45 @@ impl<'a> VisitMut for Norm<'a> {
     fn visit_expr_mut(&mut self, e: &mut Expr) {
         // ---- pre-order rewrites that change the node kind
         match e {
+            Expr::Block(eb) if eb.label.is_none() && eb.block.stmts.len() == 2 => {
+                // R-MAP(peek_mut): `{ let mut X = R.peek_mut()?; mem::replace(&mut *X, V) }` -> `R.vx_replace_top(V)?`
+                let mut repl: Option<Expr> = None;
+                if let (Stmt::Local(l), Stmt::Expr(Expr::Call(c), None)) = (&eb.block.stmts[0], &eb.block.stmts[1]) {
+                    if let (Pat::Ident(pi), Some(init)) = (&l.pat, &l.init) {
+                        if let (Expr::Try(t), None) = (&*init.expr, &init.diverge) {
+                            if let Expr::MethodCall(mc) = &*t.expr {
+                                if mc.method == "peek_mut" && mc.args.is_empty() && squash(&ts(&c.func)).ends_with("mem::replace") && c.args.len() == 2 {
+                                    let want = format!("&mut*{}", pi.ident);
+                                    if squash(&ts(&c.args[0])) == want {
+                                        let (r, v) = (&mc.receiver, &c.args[1]);
+                                        repl = Some(parse_quote!(#r.vx_replace_top(#v)?));
+                                    }
+                                }
+                            }
+                        }
+                    }
+                }
+                if let Some(r) = repl { *e = r; self.bump("R-MAP(peek_mut)"); }
+            }
+            _ => {}
+        }
+        match e {
             Expr::While(w) => {
+                if let Expr::Let(l) = &mut *w.cond {
+                    // R-MAP(peek_mut): `while let PAT(X) = R.peek_mut().. { .. PeekMut::pop(X) .. }` -> `R.peek()..` / `R.vx_peekmut_pop()`
+                    let binder = Self::single_binder(&l.pat);
+                    let mut probe = (*l.expr).clone();
+                    if let (Some(binder), Some(recv)) = (binder, Self::peek_mut_root(&mut probe)) {
+                        let mut v = PeekMutPop { binder, recv, replaced: 0, other_uses: 0 };
+                        v.visit_block_mut(&mut w.body);
+                        if v.other_uses > 0 {
+                            self.errors.push(format!("`peek_mut()` binder used other than by `PeekMut::pop` in {}", self.fname));
+                        } else {
+                            *l.expr = probe;
+                            self.bump("R-MAP(peek_mut)");
+                        }
+                    }
+                }
                 if let Expr::Let(l) = &*w.cond {
                     if self.spec.whilelet.contains(&(self.loop_no + 1)) {
                         let (pat, ex) = (&l.pat, &l.expr);
@@ -538,28 +748,6 @@ impl<'a> VisitMut for Norm<'a> {
                     return;
                 }
             }
-            Expr::ForLoop(f) if self.spec.forloop.contains(&(self.loop_no + 1)) => {
-                // R-FORLOOP: Rust's own desugaring of `for P in E {B}` over the VxIter model:
-                // `let mut it = (E).into_iter(); loop { let Some(P) = it.next() else { break; }; B }`  (lets `continue` through)
-                let n = self.loop_no + 1;
-                let itn = match self.spec.loop_labels.get(&n) { Some(l) => l.clone(), None => format!("__vx_it{}", n) };
-                let it = Ident::new(&itn, Span::call_site());
-                let ex = &f.expr;
-                let mut init: Expr = parse_quote!((#ex).into_iter());
-                self.visit_expr_mut(&mut init);
-                self.hoisted.push(parse_quote!(let mut #it = #init;));
-                let mut pat = (*f.pat).clone();
-                let mut body = f.body.clone();
-                let mut lets_holder: Block = parse_quote!({});
-                self.forpat(&mut pat, &mut lets_holder);
-                let lets = &lets_holder.stmts;
-                let stmts = std::mem::take(&mut body.stmts);
-                let label = &f.label;
-                let head_id = Ident::new(&format!("__vx_anchor_loop{}_head", n), Span::call_site());
-                let bound_id = Ident::new(&format!("__vx_anchor_loop{}_bound", n), Span::call_site());
-                *e = parse_quote!(#label loop { #head_id!(); let Some(#pat) = #it.next() else { break; }; #(#lets)* #bound_id!(); #(#stmts)* });
-                self.bump("R-FORLOOP");
-            }
             Expr::Await(a) => {
                 let base = (*a.base).clone();
                 *e = base;
@@ -569,6 +757,17 @@ impl<'a> VisitMut for Norm<'a> {
             }
             Expr::If(i) => {
                 self.rewrite_if(i);
+            }
+            Expr::MethodCall(mc) if mc.method == "or_else" && mc.args.len() == 1
+                && matches!(mc.args.first(), Some(Expr::Closure(c)) if c.inputs.is_empty() && c.asyncness.is_none()) =>
+            {
+                // R-ORELSE: `X.or_else(|| F)` -> `match X { Some(v) => Some(v), None => F }` (the definition of
+                // Option::or_else; a zero-parameter closure only fits Option's). Verus has no closures capturing `&mut`.
+                let recv = (*mc.receiver).clone();
+                let Some(Expr::Closure(c)) = mc.args.first() else { unreachable!() };
+                let body = (*c.body).clone();
+                *e = parse_quote!(match #recv { Some(__vx_some) => Some(__vx_some), None => #body, });
+                self.bump("R-ORELSE");
             }
             Expr::MethodCall(mc) => {
                 // R-MAP: map.retain(|_, v| BODY) -> map.vx_retain_values(|v| BODY)
@@ -626,9 +825,21 @@ impl<'a> VisitMut for Norm<'a> {
                 self.loop_no += 1;
                 let n = self.loop_no;
                 self.visit_expr_mut(&mut f.expr);
+                // R-ITER(for-ref), opt-in (`@opt forref`): `for P in &E` is `for P in E.iter()` for every std collection
+                let mut forref = false;
+                if self.spec.opts.contains("forref") {
+                    if let Expr::Reference(r) = &*f.expr {
+                        if r.mutability.is_none() {
+                            let inner = &r.expr;
+                            *f.expr = parse_quote!(#inner.vx_iter());
+                            self.bump("R-ITER(for-ref)");
+                            forref = true;
+                        }
+                    }
+                }
                 // iterator chain in head position
                 let mut chain = Self::is_iter_chain(&f.expr);
-                if let Expr::MethodCall(mc) = &mut *f.expr {
+                if let (false, Expr::MethodCall(mc)) = (forref, &mut *f.expr) {
                     if mc.args.is_empty() && mc.method == "vx_iter" {
                         mc.method = Ident::new("iter", mc.method.span());
                         chain = false;
@@ -642,6 +853,11 @@ impl<'a> VisitMut for Norm<'a> {
                     let ex = &f.expr;
                     *f.expr = parse_quote!(#ex.into_vec());
                     self.bump("R-ITER(for)");
+                } else if self.spec.foriter.contains(&n) {
+                    // R-FORITER: `for P in E` over a modelled collection (by reference) -> `for P in E.vx_iter().into_vec()`
+                    let ex = &f.expr;
+                    *f.expr = parse_quote!(#ex.vx_iter().into_vec());
+                    self.bump("R-FORITER");
                 }
                 if let Some(lbl) = self.spec.loop_labels.get(&n) {
                     let w = Ident::new(&format!("__vx_it_{}", lbl), Span::call_site());
@@ -649,7 +865,12 @@ impl<'a> VisitMut for Norm<'a> {
                     *f.expr = parse_quote!(#w(#ex));
                 }
                 self.visit_block_mut(&mut f.body);
-                self.forpat(&mut f.pat, &mut f.body);
+                // R-REFPAT on a `for` pattern: `for (i, &x) in ..` -> `for (i, __vx_rN) in .. { let x = *__vx_rN; ..`
+                {
+                    let mut derefs: Vec<Stmt> = vec![];
+                    self.strip_ref_pats(&mut f.pat, &mut derefs);
+                    for (k, d) in derefs.into_iter().enumerate() { f.body.stmts.insert(k, d); }
+                }
                 self.finish_loop(n, &mut f.body);
                 f.attrs.clear();
             }
@@ -709,23 +930,24 @@ impl<'a> VisitMut for Norm<'a> {
                 for (j, arm) in m.arms.iter_mut().enumerate() {
                     if let Some((_, g)) = &mut arm.guard { self.visit_expr_mut(g); }
                     self.visit_expr_mut(&mut arm.body);
-                    // R-REFPAT in match arms: `Some(&x) => B` -> `Some(__vx_xK) => { let x = *__vx_xK; B }` (unguarded arms only)
-                    fn ident_refs_only(p: &Pat) -> bool {
+                    // R-REFPAT in unguarded match arms whose reference patterns bind plain identifiers:
+                    // `Some(&x) => B` -> `Some(__vx_rN) => { let x = *__vx_rN; B }`
+                    fn ident_refs_only(p: &Pat) -> (bool, bool) {
+                        // (all reference patterns are over plain identifiers, there is at least one)
                         match p {
-                            Pat::Reference(r) => matches!(&*r.pat, Pat::Ident(pi) if pi.subpat.is_none() && pi.by_ref.is_none()),
-                            Pat::Tuple(t) => t.elems.iter().all(ident_refs_only),
-                            Pat::TupleStruct(t) => t.elems.iter().all(ident_refs_only),
+                            Pat::Reference(r) => { let mut c: &Pat = &r.pat; while let Pat::Reference(r2) = c { c = &r2.pat; } (matches!(c, Pat::Ident(pi) if pi.subpat.is_none() && pi.by_ref.is_none()), true) }
+                            Pat::Tuple(t) => t.elems.iter().map(ident_refs_only).fold((true, false), |a, b| (a.0 && b.0, a.1 || b.1)),
+                            Pat::TupleStruct(t) => t.elems.iter().map(ident_refs_only).fold((true, false), |a, b| (a.0 && b.0, a.1 || b.1)),
                             Pat::Paren(pp) => ident_refs_only(&pp.pat),
-                            _ => true,
+                            _ => (true, false),
                         }
                     }
-                    if arm.guard.is_none() && ident_refs_only(&arm.pat) {
-                        let mut holder: Block = parse_quote!({});
-                        self.forpat(&mut arm.pat, &mut holder);
-                        if !holder.stmts.is_empty() {
+                    if arm.guard.is_none() && ident_refs_only(&arm.pat) == (true, true) {
+                        let mut derefs: Vec<Stmt> = vec![];
+                        self.strip_ref_pats(&mut arm.pat, &mut derefs);
+                        if !derefs.is_empty() {
                             let body = (*arm.body).clone();
-                            let lets = &holder.stmts;
-                            *arm.body = parse_quote!({ #(#lets)* #body });
+                            *arm.body = parse_quote!({ #(#derefs)* #body });
                             if arm.comma.is_none() { arm.comma = Some(Default::default()); }
                         }
                     }
@@ -788,7 +1010,15 @@ impl<'a> VisitMut for Norm<'a> {
                         new_inputs.push(Pat::Type(PatType { attrs: vec![], pat: pname.clone(), colon_token: Default::default(), ty: pty.clone() }));
                         let old_inner = match old { Pat::Type(t) => &*t.pat, o => o };
                         match old_inner {
-                            Pat::Reference(r) => { let inner = &r.pat; lets.push(parse_quote!(let #inner = *#pname;)); self.bump("R-REFPAT"); }
+                            Pat::Reference(_) => {
+                                let mut depth = 0usize;
+                                let mut cur: Pat = old_inner.clone();
+                                while let Pat::Reference(r) = cur { depth += 1; cur = (*r.pat).clone(); }
+                                let mut ex: Expr = parse_quote!(#pname);
+                                for _ in 0..depth { ex = parse_quote!(*#ex); }
+                                lets.push(parse_quote!(let #cur = #ex;));
+                                self.bump("R-REFPAT");
+                            }
                             Pat::Ident(pi) if pi.ident == ts(pname) => {}
                             other => { lets.push(parse_quote!(let #other = #pname;)); }
                         }
@@ -848,12 +1078,12 @@ impl<'a> VisitMut for Norm<'a> {
                         }
                     }
                 }
-                // R-LETSPLIT: `@letsplit METHOD#k NAME` binds the receiver of the k-th METHOD call to `let NAME = recv;` before the
-                // enclosing statement; only for receivers that are pure by syntax (paths, fields, refs, iterator sources)
-                if self.spec.letsplit.chunks(2).any(|c| c.len() == 2 && c[0].split('#').next() == Some(name.as_str())) {
-                    let k = { let k = self.split_no.entry(name.clone()).or_default(); *k += 1; *k };
+                // R-LETSPLIT, named form (`@letsplit METHOD#k NAME`): the receiver of the k-th METHOD call, anywhere in an expression,
+                // is bound to `let NAME = recv;` before the enclosing statement; only for receivers that are pure by syntax
+                if self.spec.letsplit_named.iter().any(|(k, _)| k.split('#').next() == Some(name.as_str())) {
+                    let k = { let k = self.splitk_no.entry(name.clone()).or_default(); *k += 1; *k };
                     let key = format!("{}#{}", name, k);
-                    if let Some(c) = self.spec.letsplit.chunks(2).find(|c| c.len() == 2 && c[0] == key) {
+                    if let Some((_, nm)) = self.spec.letsplit_named.iter().find(|(kk, _)| kk == &key).cloned() {
                         fn pure(e: &Expr) -> bool {
                             match e {
                                 Expr::Path(_) | Expr::Lit(_) => true,
@@ -867,7 +1097,7 @@ impl<'a> VisitMut for Norm<'a> {
                             }
                         }
                         if pure(&mc.receiver) {
-                            let id = Ident::new(&c[1], Span::call_site());
+                            let id = Ident::new(&nm, Span::call_site());
                             let recv = &mc.receiver;
                             self.hoisted.push(parse_quote!(let #id = #recv;));
                             mc.receiver = Box::new(parse_quote!(#id));
@@ -922,6 +1152,24 @@ impl<'a> VisitMut for Norm<'a> {
                             }
                             if !done { self.errors.push(format!("`.or_insert(..)` chain outside R-MAP in {}", self.fname)); }
                         }
+                        // R-MAP(filter-eta): `o.filter(|&v| f(v))` with `f` a local FnMut -> `vx_opt_filter_with(o, &mut f)`
+                        // (Verus has no closures capturing `&mut`; the shim's body is this very closure)
+                        "filter" if mc.args.len() == 1 => {
+                            if let Some(Expr::Closure(cl)) = mc.args.first() {
+                                if cl.inputs.len() == 1 {
+                                    if let (Pat::Reference(pr), Expr::Call(call)) = (&cl.inputs[0], &*cl.body) {
+                                        if let (Pat::Ident(pi), Expr::Path(fp)) = (&*pr.pat, &*call.func) {
+                                            let arg_is_param = call.args.len() == 1 && ts(&call.args[0]) == pi.ident.to_string();
+                                            if let (true, Some(f)) = (arg_is_param, fp.path.get_ident()) {
+                                                let recv = &mc.receiver;
+                                                replace = Some(parse_quote!(vx_opt_filter_with(#recv, &mut #f)));
+                                                self.bump("R-MAP(filter-eta)");
+                                            }
+                                        }
+                                    }
+                                }
+                            }
+                        }
                         "extend" if mc.args.len() == 1 => {
                             mc.method = Ident::new("vx_extend", mc.method.span());
                             self.bump("R-STD");
@@ -964,6 +1212,16 @@ impl<'a> VisitMut for Norm<'a> {
                     }
                 }
             }
+            Expr::Lit(ExprLit { lit: Lit::Str(l), .. }) => {
+                // R-STR: a string literal in expression position becomes `<strlit>("lit")` (unit opted in with @strlit)
+                if let Some(f) = &self.unit.strlit {
+                    if let Ok(fp) = parse_str::<Path>(f) {
+                        let l = l.clone();
+                        replace = Some(parse_quote!(#fp(#l)));
+                        self.bump("R-STR");
+                    }
+                }
+            }
             Expr::Binary(b) => {
                 // R-ENUMEQ
                 if matches!(b.op, BinOp::Eq(_) | BinOp::Ne(_)) {
@@ -998,7 +1256,7 @@ impl<'a> Norm<'a> {
         // keep a `let PAT = __vx_xK;` (R-FORPAT) first
         let mut pos = 0;
         while let Some(Stmt::Local(l)) = body.stmts.get(pos) {
-            match &l.init { Some(init) if ts(&init.expr).contains("__vx_x") => pos += 1, _ => break }
+            match &l.init { Some(init) if ts(&init.expr).contains("__vx_r") || ts(&init.expr).starts_with("__vx_x") => pos += 1, _ => break }
         }
         for (k, s) in s0.into_iter().enumerate() { body.stmts.insert(pos + k, s); }
         body.stmts.extend(s1);
